@@ -16,7 +16,7 @@ from vlib import SPEC
 MANIFEST = {
     'level': 'model_checking', 'design': '4 (C20)',
     'technique': 'TLA+ spec (Constraints.tla) model-checked with TLC over every small table; every table x probe replayed into the real SpatioTemporalConstraints',
-    'text': 'TLC enumerates every constraint table of at most 3 entries over gaps 0..8 x limits {1,2,4} given in at most two add calls (every cut position, duplicated gaps included), checks on the specification that admission is monotone in the distance, that a gap configured twice keeps its first limit, that the applicable limit is the one of the smallest configured gap not below the probe gap, and that an implementation-shaped definition (append, stable sort, dedup, linear scan) agrees with the declarative one; every table is then built in the real SpatioTemporalConstraints and validate(gap, d) is compared with the specification for every gap 0..9 and every distance in {limit-1/2, limit, limit+1/2}.',
+    'text': 'TLC enumerates every constraint table of at most 3 entries over gaps 0..8 x limits {1,2,4} given in at most two add calls (every cut position, duplicated gaps included), checks on the specification that admission is monotone in the distance, that a gap configured twice keeps its first limit, that the applicable limit is the one of the smallest configured gap not below the probe gap, and that an implementation-shaped definition (append, stable sort, dedup, linear scan) agrees with the declarative one; every table is then built in the real SpatioTemporalConstraints and validate(gap, d) is compared with the specification for every gap 0..9 and every distance in {limit-1/2, limit, limit+1/2}. Tracker level (R2): random histories with fast and re-appearing objects under random tables of 1..3 entries over gaps 1..6 (idle limits 1..3, so entries above the idle limit occur and apply to every smaller gap without a closer entry) are recorded and validated by TLC against TrackerTrace / VisualTrace: no continuation beyond the limit for its gap, the continuation set optimal over the admitted pairs; a table that no pair violates gives the records of the run without a table.',
     'note': 'Trusted: TLC. Limits and distances are multiples of 1/2 (exact in f32); tables have at most 3 (thorough: limits up to 8) entries; the internal table is private, only validate() is observed.'}
 LEVEL = MANIFEST["level"]
 S = SPEC / "calc"
@@ -85,10 +85,12 @@ def tracker_engine(chk, quick):
     for i in range(n):
         # 1..3 entries with pairwise different limits inside the range of distances at which pairs are still gated
         # (a low IoU threshold keeps re-appearing objects gated): the limit that applies depends on the exact gap
-        gaps = sorted(rnd.sample(range(1, 4), rnd.choice((1, 2, 3))))
+        # entries for gaps above the idle limit are kept in: such an entry is still the applicable one for every smaller
+        # gap that has no closer entry
+        gaps = sorted(rnd.sample(range(1, 7), rnd.choice((1, 2, 3))))
         table = ",".join(f"{g}:{l}" for g, l in zip(gaps, rnd.sample((0.1, 0.2, 0.3, 0.5, 0.8), len(gaps))))
         kind = ("sort", "visual", "batchsort")[i % 3]
-        R2KW[i] = dict(steps=150 if quick else 300, shards=1 + i % 3, metric="iou" if i % 2 == 0 else "maha", max_idle=3, objects=4,
+        R2KW[i] = dict(steps=150 if quick else 300, shards=1 + i % 3, metric="iou" if i % 2 == 0 else "maha", max_idle=(3, 2, 1, 2)[i % 4], objects=4,
                        spread=(60, 120)[i % 2], extra=["--jump", "1", "--thr", "0.1"])
         t = r2.record(chk, f"c20-r2-{i}", kind, chk.seed * 1000 + 500 + i, constraints=table, **R2KW[i])
         st = r2.trace_stats(t)
